@@ -6,7 +6,7 @@ CONSTANTS
   Forms = {}
   ScopeOn = FALSE  FieldOn = FALSE  MethodFlags = {1, 10}  StmtKinds = {"call1", "call2", "nest", "if"}  MaxStmts = 2
   Widths = {}
-  Excluded = {"D1", "D1b", "D2", "D3", "D5", "D7", "D8", "D9"}
+  Excluded = {"D1", "D1b", "D2", "D2c", "D3", "D5", "D7", "D8", "D9"}
   Emit = TRUE  Bug = ""
 INIT Init
 NEXT Next
